@@ -105,6 +105,23 @@ long f8(int v)
 	}
 	return r * 100 + calls;
 }
+long f9(unsigned short v)
+{
+	switch (v) {
+	case 40000: return 1;
+	case 65535: return 2;
+	case 0x8000: return 3;
+	case 7: return 4;
+	default: return 0;
+	}
+}
+long f10(unsigned char v, signed char w)
+{
+	long r = 0;
+	switch (v) { case 200: r = 1; break; case 255: r = 2; break; case 128: r = 3; break; }
+	switch (w) { case -1: r += 10; break; case -128: r += 20; break; case 127: r += 30; break; }
+	return r;
+}
 int main(void)
 {
 	int v;
@@ -123,5 +140,9 @@ int main(void)
 	calls = 0;
 	for (v = 0; v <= 8; v++)
 		out_l(f8(v));
+	out_l(f9(40000) * 1000 + f9(65535) * 100 + f9(32768) * 10 + f9(7));
+	out_l(f9(32767) + f9(0));
+	out_l(f10(200, -1) * 10000 + f10(255, -128) * 100 + f10(128, 127));
+	out_l(f10(127, 0));
 	return 0;
 }
